@@ -28,11 +28,12 @@ MANIFEST = dict(
          "run; machine-checked (Coq): °C/from_celsius and °F/from_fahrenheit are mutually inverse over Q, "
          "julian_date/from_julian_date are mutually inverse, unixtime_{s,ms,µs}(from_unixtime_{s,ms,µs}(n)) = n for "
          "every integer n and from_unixtime(unixtime(t)) = t on µs-aligned instants (exact rational arithmetic, no "
-         "range limits), coth(acoth x) = x for |x| > 1, acoth(coth x) = x for x <> 0, cot(acot x) = x for x <> 0 over "
+         "range limits), coth(acoth x) = x for |x| > 1, acoth(coth x) = x for x <> 0, cot(acot x) = x for x <> 0, "
+         "sech(asech x) = x for 0 < x <= 1, csch(acsch x) = x for x <> 0 over "
          "the reals (stdlib real-number axioms), and for the hand-ported _mixed_unit_list: the parts add up to the "
          "value, there is one part per unit and all but the last are whole multiples of their unit. NOT proved "
          "(oracle/correspondence only): floating-point behaviour (tolerances), the FFI pairs sin/asin, cos/acos, "
-         "tan/atan, sinh/asinh, cosh/acosh, tanh/atanh, exp/ln, log10, log2, sqrt/sqr, cbrt, sech/asech, csch/acsch, "
+         "tan/atan, sinh/asinh, cosh/acosh, tanh/atanh, exp/ln, log10, log2, sqrt/sqr, cbrt, "
          "the jiff calendar behind DateTime, unit_list's sorting/deduplication.",
     design_ref="DESIGN.md §6 C23; design/misc.md",
     note="Trusted: Coq kernel; the translator tools/props/c23.py + nbtexpr.py (its output is compared with the running "
@@ -43,7 +44,8 @@ MANIFEST = dict(
 )
 
 THEOREMS = ["C23_celsius", "C23_fahrenheit", "C23_julian", "C23_unixtime_int", "C23_unixtime_aligned",
-            "C23_coth_acoth", "C23_acoth_coth", "C23_cot_acot", "C23_mixed_sum", "C23_mixed_whole"]
+            "C23_coth_acoth", "C23_acoth_coth", "C23_cot_acot", "C23_sech_asech", "C23_csch_acsch",
+            "C23_mixed_sum", "C23_mixed_whole"]
 ALLOWED_AXIOMS = ["ClassicalDedekindReals.sig_forall_dec", "ClassicalDedekindReals.sig_not_dec",
                   "FunctionalExtensionality.functional_extensionality_dep", "Classical_Prop.classic"]
 # common.print_assumptions reads the header line "Axioms:" as a name and misses names whose type starts on the
